@@ -15,6 +15,7 @@
 package etcd
 
 import (
+	"bytes"
 	"context"
 	"fmt"
 	"time"
@@ -164,10 +165,21 @@ func isCreate(txn *etcdserverpb.TxnRequest) *etcdserverpb.PutRequest {
 		txn.Compare[0].GetModRevision() == 0 &&
 		len(txn.Failure) == 0 &&
 		len(txn.Success) == 1 &&
-		txn.Success[0].GetRequestPut() != nil {
+		txn.Success[0].GetRequestPut() != nil &&
+		bytes.Equal(txn.Compare[0].Key, txn.Success[0].GetRequestPut().Key) {
 		return txn.Success[0].GetRequestPut()
 	}
 	return nil
+}
+
+// plainGet / plainDelete tell whether the operation is a point operation on key without options:
+// anything else is not one of the shapes this server understands and must not be executed as one.
+func plainGet(r *etcdserverpb.RangeRequest, key []byte) bool {
+	return r != nil && bytes.Equal(r.Key, key) && len(r.RangeEnd) == 0
+}
+
+func plainDelete(r *etcdserverpb.DeleteRangeRequest, key []byte) bool {
+	return r != nil && bytes.Equal(r.Key, key) && len(r.RangeEnd) == 0 && !r.PrevKv
 }
 
 func isDelete(txn *etcdserverpb.TxnRequest) (int64, []byte, bool) {
@@ -175,7 +187,9 @@ func isDelete(txn *etcdserverpb.TxnRequest) (int64, []byte, bool) {
 		len(txn.Failure) == 0 &&
 		len(txn.Success) == 2 &&
 		txn.Success[0].GetRequestRange() != nil &&
-		txn.Success[1].GetRequestDeleteRange() != nil {
+		txn.Success[1].GetRequestDeleteRange() != nil &&
+		plainGet(txn.Success[0].GetRequestRange(), txn.Success[1].GetRequestDeleteRange().Key) &&
+		plainDelete(txn.Success[1].GetRequestDeleteRange(), txn.Success[1].GetRequestDeleteRange().Key) {
 		rng := txn.Success[1].GetRequestDeleteRange()
 		return 0, rng.Key, true
 	}
@@ -185,7 +199,10 @@ func isDelete(txn *etcdserverpb.TxnRequest) (int64, []byte, bool) {
 		len(txn.Failure) == 1 &&
 		txn.Failure[0].GetRequestRange() != nil &&
 		len(txn.Success) == 1 &&
-		txn.Success[0].GetRequestDeleteRange() != nil {
+		txn.Success[0].GetRequestDeleteRange() != nil &&
+		txn.Compare[0].GetModRevision() != 0 && // revision 0 would turn the guarded delete into an unconditional one
+		plainDelete(txn.Success[0].GetRequestDeleteRange(), txn.Compare[0].Key) &&
+		plainGet(txn.Failure[0].GetRequestRange(), txn.Compare[0].Key) {
 		return txn.Compare[0].GetModRevision(), txn.Success[0].GetRequestDeleteRange().Key, true
 	}
 	return 0, nil, false
@@ -198,7 +215,12 @@ func isUpdate(txn *etcdserverpb.TxnRequest) (int64, []byte, []byte, int64, bool)
 		len(txn.Success) == 1 &&
 		txn.Success[0].GetRequestPut() != nil &&
 		len(txn.Failure) == 1 &&
-		txn.Failure[0].GetRequestRange() != nil {
+		txn.Failure[0].GetRequestRange() != nil &&
+		bytes.Equal(txn.Success[0].GetRequestPut().Key, txn.Compare[0].Key) &&
+		!txn.Success[0].GetRequestPut().IgnoreValue &&
+		!txn.Success[0].GetRequestPut().IgnoreLease &&
+		!txn.Success[0].GetRequestPut().PrevKv &&
+		plainGet(txn.Failure[0].GetRequestRange(), txn.Compare[0].Key) {
 		return txn.Compare[0].GetModRevision(),
 			txn.Compare[0].Key,
 			txn.Success[0].GetRequestPut().Value,
